@@ -124,10 +124,10 @@ func ScalePath64(path Path64, scale float64) Path64 {
 
 func ScaleRectD(rec RectD, scale float64) Rect64 {
 	return Rect64{
-		left:   int64(rec.left * scale),
-		top:    int64(rec.top * scale),
-		right:  int64(rec.right * scale),
-		bottom: int64(rec.bottom * scale),
+		left:   int64(math.Round(rec.left * scale)),
+		top:    int64(math.Round(rec.top * scale)),
+		right:  int64(math.Round(rec.right * scale)),
+		bottom: int64(math.Round(rec.bottom * scale)),
 	}
 }
 
